@@ -2,6 +2,10 @@ package main
 
 // c14_classify.go: root-cause classification of "decoder accepted bytes that re-encode differently".
 //
+// The first five classes below are CLOSED findings (repaired in /repo by 05de783, ac28a64, 8a6b205, 4ab6b74 + a0389ea,
+// 7e982c7): the generator keeps producing their inputs, the decoders now reject them, and the classes stay here so that
+// the oracle reports the same stable signature if one of them ever returns.
+//
 // The class is decided from the INNERMOST typed field at which the accepted wire bytes and the
 // re-encoding first differ, independent of the wrapping type and of the position:
 //   header-root                   Header TxRoot/LogRoot of a length != 32 or an explicit EmptyTrieHash   (block.go:231-240)
